@@ -169,6 +169,9 @@ class Gen:
             c += [("tup", ["int", ("rec", "jet")]), ("dict", {"a": "int", "b": "int"}),
                   ("seq", "int"), ("tup", [("seq", ("rec", "jet")), "int"]),
                   ("tup", ["int", ("tup", ["int", ("rec", "jet")])]),
+                  ("tup", [("tup", ["int", "int"]), ("tup", ["int", "int"])]),
+                  ("tup", [("tup", [("seq", ("rec", "jet")), "int"]),
+                           ("tup", [("seq", ("rec", "jet")), "int"])]),
                   ("dict", {"a": ("tup", ["int", "int"]), "b": "int"})]
         return self.rng.choice(c)
 
@@ -413,6 +416,12 @@ EXTEND = [
     "Select({S}, lambda {p}: ({p}, Count({S})))",
     "Select(Select({S}, lambda {p}: ({p}, 1)), lambda {q}: {q}[0])",
 ]
+BAD_QUERIES = [
+    "Select(ds, lambda {x}: Select({x}.jets, lambda {x2}: ({x2}.pt, {x}.w)[2]))",
+    "Select(ds, lambda {x}: (lambda {s}: {s}[3])(({x}.x, {x}.w)))",
+    "Select(ds, lambda {x}: Select({x}.jets, lambda {x2}: Select({x}.jets, lambda {x3}: [{x3}.pt, {x2}.pt][5])))",
+    "Where(ds, lambda {x}: (lambda {s}: Count(Where({x}.jets, lambda {x2}: ({x2}.pt, {s})[4] > 0)) > 0)({x}.x))",
+]
 WARM_QUERY = "Select(Select(ds, lambda e: (e.x, e.w)), lambda t: t[0] + t[1])"
 
 
@@ -455,8 +464,15 @@ def generate(prop, seed, tier="quick", fault_free=False):
         elif r < 0.88:
             ops.append({"op": "restart",
                         "epoch": "child" if (tier == "thorough" and w.random() < 0.05) else "module"})
-        else:
+        elif r < 0.93:
             ops.append({"op": "warm", "k": w.choice([1, 1, 2, 3, 5, 9, 40, 300])})
+        else:
+            # a query the simplifier rejects with its dedicated index error, raised from inside
+            # nested lambdas / a called lambda: whatever it leaves behind meets the next query
+            g = Gen(w, names, reuse, helpers)
+            nm = {k: g.fresh("stage") for k in ("x", "x2", "x3")}
+            nm["s"] = g.fresh("helper")
+            ops.append({"op": "serve_bad", "q": w.choice(BAD_QUERIES).format(**nm)})
     return {"property": prop, "engine": "simplifier_node", "engine_version": ENGINE_VERSION,
             "seed": seed, "sched_seed": 0,
             "config": {"naming": naming, "binder_reuse": reuse, "data": gen_data(st.get("data")),
@@ -689,6 +705,18 @@ class Node:
                 self.stat("fault_restart")
                 self.restarted_since_argn_made = True
                 self.events.append("restart")
+            elif k == "serve_bad":
+                inst = None
+                if self.case["config"].get("reuse_instance"):
+                    if self.inst is None:
+                        self.inst = self.mod.simplify_chained_calls()
+                    inst = self.inst
+                try:
+                    simplify(self.mod, parse_query(op["q"]), inst)
+                    self.stat("bad_query_accepted")
+                except Exception as ex:
+                    self.stat("fault_query_rejected_mid_rewrite")
+                    self.events.append(f"bad|{type(ex).__name__}")
             elif k == "warm":
                 wa = parse_query(WARM_QUERY)
                 for _ in range(op["k"]):
@@ -735,7 +763,7 @@ def execute(case):
     n.stats["epochs_started"] = n.stats.get("epochs_started", 0) + len(epochs)
     kinds = [o["op"] for o in case["ops"]]
     texts = "\n".join(o.get("q", "") for o in case["ops"])
-    nontrivial = any(k in ("restart", "roundtrip", "reserve", "extend") for k in kinds) or bool(
+    nontrivial = any(k in ("restart", "roundtrip", "reserve", "extend", "serve_bad") for k in kinds) or bool(
         n.stats.get("served_with_argN_binder"))
     if viol is not None:
         viol["detail"] = json.loads(_ADDR.sub("0x?", json.dumps(viol["detail"], default=repr)))
